@@ -140,3 +140,12 @@ func (v VerifInternal) ChanCap() int {
 	}
 	return cap(v.p.indexChans)
 }
+
+// Slot returns index buffer i of the ring (nil without parser state). The harness only reads it, to
+// compare what stage 1 handed over with what stage 2 still finds there.
+func (v VerifInternal) Slot(i int) []uint32 {
+	if v.p == nil || i < 0 || i >= indexSlots {
+		return nil
+	}
+	return v.p.buffers[i][:]
+}
